@@ -47,6 +47,8 @@ finally:
 rc, st = sh("git -C /repo status --porcelain --untracked-files=no")
 if st.strip():
     sys.exit("/repo not clean")
+ev = os.path.join(VERIF, "evidence", prop + ".json")
+ev_bak = open(ev).read() if os.path.exists(ev) else None   # evidence of a mutated tree must not replace the clean one
 sh("git -C /repo apply %s" % patch, check=True)
 try:
     t0 = time.time()
@@ -58,6 +60,8 @@ try:
     print("check rc=%d" % p.returncode); print("\n".join(lines[:12]))
 finally:
     sh("git -C /repo checkout -- .", check=True)
+    if ev_bak is not None:
+        open(ev, "w").write(ev_bak)
 meta["detected"] = meta["check_rc"] == 1
 d = os.path.join(VERIF, "seeded", "%s-%s" % (prop, name))
 os.makedirs(d, exist_ok=True)
